@@ -107,6 +107,10 @@ func equalityLaws(t *core.Tape, st *core.Stats, ts *world.TypeSpec, model *world
 			choice = t.Draw(4)
 		}
 
+		if len(ts.Attrs)+len(ts.Rels) == 0 && (choice == 1 || choice == 2) {
+			choice = 3 * t.Draw(2) // a type without fields: only its name or the ID can differ
+		}
+
 		switch choice {
 		case 4: // two ID lists that differ but are equal once joined by a separator
 			sep := []string{",", " ", "", "|", "\x00"}[t.Draw(5)]
